@@ -47,3 +47,49 @@ func HarnessC19Advance() {
 		verifrt.Assert(whole.Column == parts.Column, "column depends on how the text is split into Advance calls")
 	}
 }
+
+// HarnessC19AdvanceUnicode: text with multi-byte characters (a 2-byte and a 3-byte one at symbolic places between
+// symbolic ASCII characters, no tab / newline): Index advances by the BYTES, Column by the CHARACTERS, whether the
+// text is advanced over in one call or split at any character boundary.
+func HarnessC19AdvanceUnicode() {
+	a := verifrt.String("a", 1)
+	b := verifrt.String("b", 1)
+	verifrt.Assume(a[0] >= 0x20 && a[0] < 0x7f && b[0] >= 0x20 && b[0] < 0x7f)
+	var parts []string
+	switch verifrt.Choice("shape", 4) {
+	case 0:
+		parts = []string{a, "\u00e9", b}
+	case 1:
+		parts = []string{"\u65e5", a, b}
+	case 2:
+		parts = []string{a, b, "\u00e9", "\u65e5"}
+	case 3:
+		parts = []string{"/*", a, "\u00e9", "*/"}
+	}
+	s := ""
+	for _, p := range parts {
+		s += p
+	}
+	whole := Position{Line: 1, Column: 1, Index: 0}
+	whole.Advance(s)
+	verifrt.Assert(whole.Index == len(s), "Index does not count the bytes advanced over (multi-byte text)")
+	verifrt.Assert(whole.Column == 1+len(parts)+func() int {
+		if len(parts) == 4 && parts[0] == "/*" {
+			return 2
+		}
+		return 0
+	}(), "Column does not count the characters advanced over (multi-byte text)")
+	k := verifrt.Choice("split", len(parts)+1)
+	split := Position{Line: 1, Column: 1, Index: 0}
+	h := ""
+	for _, p := range parts[:k] {
+		h += p
+	}
+	t := ""
+	for _, p := range parts[k:] {
+		t += p
+	}
+	split.Advance(h)
+	split.Advance(t)
+	verifrt.Assert(split.Index == whole.Index && split.Column == whole.Column && split.Line == whole.Line, "position depends on how multi-byte text is split into Advance calls")
+}
